@@ -1,11 +1,22 @@
 #!/bin/bash
-# apply a seeded change to /repo, run the given checks (without touching evidence/), undo it.  usage: tools/seedrun.sh <seed-id> <check> [<check>...]
+# run the given checks against a seeded change (without touching evidence/).  usage: tools/seedrun.sh <seed-id> <check> [<check>...]
+# default: the change is applied to a scratch worktree of /repo's HEAD under /tmp (removed afterwards) and the checks run with
+# VERIF_REPO pointing there, so that background runs reading /repo are not disturbed; SEED_INPLACE=1 applies it to /repo itself
+# (git -C /repo apply ...; checks; git -C /repo checkout -- .)
 ID=$1; shift
-cd /repo && git diff --quiet || { echo "repo dirty"; exit 9; }
-git -C /repo apply /verif/seeded/$ID/patch.diff || exit 9
+OUT=${SEED_OUT:-/tmp/wt}; mkdir -p $OUT
+if [ -n "$SEED_INPLACE" ]; then
+  cd /repo && git diff --quiet || { echo "repo dirty"; exit 9; }
+  git -C /repo apply /verif/seeded/$ID/patch.diff || exit 9
+  R=/repo
+else
+  R=/tmp/wt/seedrepo_$ID
+  git -C /repo worktree add -q --detach $R HEAD || exit 9
+  git -C $R apply /verif/seeded/$ID/patch.diff || { echo "seed=$ID patch does not apply"; git -C /repo worktree remove --force $R; exit 9; }
+fi
 for c in "$@"; do
-  cd /verif && VERIF_NO_EVIDENCE=1 ./vcheck $c > /tmp/wt/seed_$ID.$c.out 2>&1; rc=$?
-  echo "seed=$ID check=$c exit=$rc violations=$(grep -c '^VIOLATION' /tmp/wt/seed_$ID.$c.out) $(grep '^VIOLATION' /tmp/wt/seed_$ID.$c.out | head -1 | cut -c1-260)"
-  tail -1 /tmp/wt/seed_$ID.$c.out | cut -c1-200 | grep -v "^C[0-9][0-9] tier" 
+  cd /verif && VERIF_REPO=$R VERIF_NO_EVIDENCE=1 ./vcheck $c > $OUT/seed_$ID.$c.out 2>&1; rc=$?
+  echo "seed=$ID check=$c exit=$rc violations=$(grep -c '^VIOLATION' $OUT/seed_$ID.$c.out) $(grep '^VIOLATION' $OUT/seed_$ID.$c.out | head -1 | cut -c1-260)"
+  tail -1 $OUT/seed_$ID.$c.out | cut -c1-200 | grep -v "^C[0-9][0-9] tier"
 done
-git -C /repo checkout -- .
+if [ -n "$SEED_INPLACE" ]; then git -C /repo checkout -- .; else git -C /repo worktree remove --force $R; fi
